@@ -22,6 +22,7 @@ func init() {
 		func(t *vcTrial) { vcRunC13(t, vc13Cfg{Kind: "emfile", Clients: 6}) },
 		vcRunC13EmfileShutdown,
 		vcRunC13EmfileLong,
+		vcRunC13IdleThenBusy,
 	}
 }
 
@@ -380,7 +381,27 @@ func vcRunC13(t *vcTrial, cfg vc13Cfg) {
 		mu.Lock()
 		for _, rec := range recs {
 			if atomic.LoadInt32(&rec.depth) > 0 && !rec.Conn.IsActive() {
-				t.Violate("C13", "busy_closed", "a connection whose handler was still running was closed by Shutdown (fd=%d)", rec.FD)
+				// root cause from the trace: was the connection idle when Shutdown's close pass looked at
+				// it (and became busy before the Close call landed), or busy all along?
+				var tIdle, tTask int64
+				for _, e := range vcTraceSince(mark) {
+					if e.Obj != rec.ID {
+						continue
+					}
+					switch int(e.Point) {
+					case vpServerCloseIdle:
+						if tIdle == 0 {
+							tIdle = e.T
+						}
+					case vpTaskStart:
+						tTask = e.T
+					}
+				}
+				how := "it was busy when the close pass looked at it"
+				if tIdle != 0 && tTask > tIdle {
+					how = fmt.Sprintf("the close pass found it idle, a request arrived and its handler started %dus later, then the close pass's Close() landed", (tTask-tIdle)/1000)
+				}
+				t.Violate("C13", "busy_closed", "a connection whose handler was still running was closed by Shutdown (fd=%d): %s", rec.FD, how)
 			}
 		}
 		mu.Unlock()
@@ -706,4 +727,82 @@ func vcRunC13EmfileLong(t *vcTrial) {
 	t.Stat("emfile_retries_seen", nret)
 	t.Nontrivial = nret >= 8
 	t.Sig = fmt.Sprintf("emfile-long|retries>=8:%v", nret >= 8)
+}
+
+// vcRunC13IdleThenBusy places D28 exactly: Shutdown's close pass has just judged a connection
+// idle (hook ServerCloseIdle) when a request arrives and its handler starts; then the pass's
+// Close() lands. "Leaves busy ones running": the handler's connection must still be active.
+func vcRunC13IdleThenBusy(t *vcTrial) {
+	t.P("variant", "idle-at-the-check-busy-at-the-close")
+	release := make(chan struct{})
+	var inHandler int32
+	var connID uintptr
+	so := vcSrvOpts{Network: "unix", NCloseCb: 1}
+	so.OnPrepare = func(rec *vcConnRec) { connID = rec.ID }
+	so.OnRequest = func(ctx context.Context, rec *vcConnRec) error {
+		rec.Conn.Reader().Skip(rec.Conn.Reader().Len())
+		atomic.StoreInt32(&inHandler, 1)
+		<-release
+		atomic.StoreInt32(&inHandler, 2)
+		return nil
+	}
+	srv, err := vcStartServer(so)
+	if err != nil {
+		t.Inconclusive("server start: %v", err)
+		return
+	}
+	cli, err := vcDialRaw(srv)
+	if err != nil {
+		srv.Stop(time.Second)
+		t.Inconclusive("dial: %v", err)
+		return
+	}
+	defer cli.Close()
+	rec := srv.nextAccepted(3 * time.Second)
+	if rec == nil {
+		srv.Stop(time.Second)
+		t.Inconclusive("accept not seen")
+		return
+	}
+	mark := vcTraceMark()
+	var placed int32
+	vcPointCallback.Store(func(id int, obj uintptr, arg int) {
+		if id == vpServerCloseIdle && obj == connID && atomic.CompareAndSwapInt32(&placed, 0, 1) {
+			cli.Write([]byte("a-request-right-after-the-idle-check"))
+			for dl := time.Now().Add(2 * time.Second); atomic.LoadInt32(&inHandler) == 0 && time.Now().Before(dl); {
+				time.Sleep(20 * time.Microsecond)
+			}
+		}
+	})
+	defer vcPointCallback.Store(func(id int, obj uintptr, arg int) {})
+	ctx, cancel := context.WithTimeout(context.Background(), 150*time.Millisecond)
+	shErr := srv.Evl.Shutdown(ctx)
+	cancel()
+	busy := atomic.LoadInt32(&inHandler) == 1
+	active := rec.Conn.IsActive()
+	close(release)
+	if atomic.LoadInt32(&placed) == 0 || !busy {
+		t.Inconclusive("the request did not land between the idle check and the Close (placed=%d handler=%d)", atomic.LoadInt32(&placed), atomic.LoadInt32(&inHandler))
+		return
+	}
+	if !active {
+		var tIdle, tTask int64
+		for _, e := range vcTraceSince(mark) {
+			if e.Obj != rec.ID {
+				continue
+			}
+			switch int(e.Point) {
+			case vpServerCloseIdle:
+				if tIdle == 0 {
+					tIdle = e.T
+				}
+			case vpTaskStart:
+				tTask = e.T
+			}
+		}
+		t.Violate("C13", "busy_closed", "a connection whose handler was still running was closed by Shutdown (fd=%d, Shutdown returned %v): the close pass found it idle, a request arrived and its handler started %dus later, then the close pass's Close() landed", rec.FD, shErr, (tTask-tIdle)/1000)
+	}
+	rec.waitClosed(2 * time.Second)
+	srv.Stop(2 * time.Second)
+	t.Nontrivial, t.Sig = true, "idle-then-busy"
 }
